@@ -49,6 +49,7 @@ type vfC14Inst struct {
 	started   map[string]bool
 	topic     *Topic
 	topic2    *Topic
+	topic3    *Topic // only ever closed (its own handle: Close holds the topic lock while it waits for the loop)
 	sub       *Subscription
 	evh       *TopicEventHandler
 	disc      bool
@@ -114,6 +115,9 @@ func (in *vfC14Inst) ops() map[string]func(ctx context.Context) {
 				t.Close()
 			}
 		},
+		// Close on a handle that stays in use (a handle of its own): whatever way Close ends, the handle has to
+		// stay usable, i.e. answer every later call with an error instead of blocking it
+		"topic3close": func(context.Context) { in.topic3.Close() },
 		"batch": func(context.Context) {
 			var b MessageBatch
 			in.topic.AddToBatch(context.Background(), &b, []byte("b1"))
@@ -241,9 +245,9 @@ func (in *vfC14Inst) Apply(ev string, judge bool) string {
 		in.started[name] = true
 		in.lastEv = ev
 		in.start(name)
-		if in.busy != nil && name != "setscore" {
-			// (SetScoreParams parks at its hand-off holding the topic's write lock: further copies would wait for
-			// that mutex, which is not a durable block, and wedge the bubble)
+		if in.busy != nil && name != "setscore" && name != "topic3close" {
+			// (SetScoreParams and Close park at their hand-off holding the topic's write lock: further copies would
+			// wait for that mutex, which is not a durable block, and wedge the bubble)
 			for i := 1; i < vfC14BusyCopies; i++ {
 				in.start(name)
 			}
@@ -343,6 +347,58 @@ func (in *vfC14Inst) shutdown(judge bool) string {
 		}
 		if !c.finished() {
 			in.bad("c14:call-in-flight-blocks:"+c.name, "%s was in progress when the context was cancelled and never returned (parked calls at that point: %v)", c.name, parked)
+		}
+	}
+	// Lock scan (see locks.go): a call that has returned must not have left one of the library's mutexes locked -- the
+	// next caller would block on it for ever, and a goroutine blocked on a mutex wedges the bubble instead of failing
+	// the check. Done once the calls that were in flight at the cancellation have returned, and again after every API
+	// call has been made once more.
+	lockScan := func(stage string) (string, bool) {
+		for _, c := range in.calls {
+			if !c.finished() {
+				return "", false // (a call still in flight may rightfully hold a lock; it has been reported above)
+			}
+		}
+		roots := map[string]any{"PubSub": g.n.ps, "Topic(t)": in.topic, "Topic(t2)": in.topic2, "Topic(t3)": in.topic3, "Subscription": in.sub, "TopicEventHandler": in.evh}
+		held := vfLocksHeld(roots)
+		for _, h := range held {
+			in.bad("c14:lock-held-after-return:"+h, "after the context was cancelled and every API call (%s) had returned, %s is still locked: a call left it locked on its way out, and the next call that needs it blocks for ever", stage, h)
+		}
+		in.count("lock_scans_after_cancellation")
+		return fmt.Sprintf("parked=%v locks=%v", parked, held), len(held) > 0
+	}
+	if obs, bad := lockScan("in flight at the cancellation"); bad {
+		return obs
+	}
+	// 2a. every API call once after cancellation
+	{
+		var first []*vfCall
+		for _, name := range vfSortedKeys(in.ops()) {
+			f := in.ops()[name]
+			ctx, cancel := context.WithCancel(context.Background())
+			c := &vfCall{name: name, done: make(chan struct{}), cancel: cancel, ownCtx: vfC14OwnCtx[name]}
+			first = append(first, c)
+			go func() {
+				defer close(c.done)
+				f(ctx)
+			}()
+			synctest.Wait()
+			if !c.finished() && c.ownCtx {
+				c.cancel()
+				synctest.Wait()
+			}
+		}
+		vfAdvance(time.Second)
+		allBack := true
+		for _, c := range first {
+			if !c.finished() {
+				allBack = false // reported by the repeated round below
+			}
+		}
+		if allBack {
+			if obs, bad := lockScan("made once after the cancellation"); bad {
+				return obs
+			}
 		}
 	}
 	// 2. every API call again, 40 times each, after cancellation
@@ -488,6 +544,7 @@ func vfC14Mk(x *vfExec, sc *vfGWScenario) vfInstance {
 	in := &vfC14Inst{vfGWInst: base, started: map[string]bool{}, disc: sc.Cfg.Extra["discovery"] != ""}
 	in.topic = base.g.topic("t")
 	in.topic2 = base.g.topic("t2")
+	in.topic3 = base.g.topic("t3")
 	var err error
 	if in.sub, err = in.topic.Subscribe(); err != nil {
 		panic(err)
